@@ -22,7 +22,7 @@ type QOpts struct {
 var plainNames = []string{"a", "b", "c", "x", "y", "id", "name", "f1", "F", "Ab_9", "_", "__typename", "user", "T", "U"}
 var keywordNames = []string{"on", "query", "mutation", "subscription", "fragment", "true", "false", "null", "type", "schema", "extend", "implements", "input", "repeatable", "directive", "enum", "union", "scalar", "interface",
 	// the JSON keys of the syntax tree's own encoding: a name that equals a key must stay a name
-	"Alias", "Name", "Arguments", "Directives", "SelectionSet", "TypeCondition", "Definition", "ObjectDefinition", "Position", "Kind", "Raw", "Children", "Value", "VariableDefinition", "Operation"}
+	"ON", "On", "Query", "TRUE", "Null", "FRAGMENT", "Alias", "Name", "Arguments", "Directives", "SelectionSet", "TypeCondition", "Definition", "ObjectDefinition", "Position", "Kind", "Raw", "Children", "Value", "VariableDefinition", "Operation"}
 
 func name(r *core.Rand, o *QOpts) string {
 	if o.KeywordNames && r.Chance(1, 4) {
@@ -58,7 +58,7 @@ var HostileStrings = []string{
 	" ", "😀", "\uFEFF", "   ", "  a\n    b\n  c", `ends with quote"`, `back\`, `A`, "#not comment", "\r", "a\r\nb",
 	"\b\f", "/slash/", `""`, `""""`, "tab\there", "\ttabfirst", "line1\n line2", "\n", " \n ", "é́", "\U0001F600x", " nbsp", "{}[]()$@!|&=:", "...", "on",
 	"a\n\n\nb", "  indented first\nsecond", "x\n  \ny", "\x1b[0m", "\u0085", "\u200B",
-	"100%", "a%b %s %d %v %!", "%",
+	"100%", "a%b %s %d %v %!", "%", "red,green", "a, b", ",", ", ,", "\uFFFD", "x\uFFFDy",
 	"\U000F0000", "\U000E0001tag", "\u00ad", "\u000b\u001f\u200b", "  first\n\n  second", "\u00ff\u0abc\ufffe",
 }
 
